@@ -10,6 +10,7 @@ Families
              interleaving model of Model/Handover.v and replayed there (post_model).
 """
 import json
+import os
 
 from lib import progs
 from lib.framework import Family
@@ -707,3 +708,79 @@ FAMILIES = [
            describe=describe_handover, shard=40, case_timeout=30),
 ]
 FAMILIES[2].post_model = post_handover
+
+
+# ---- the same through the PUBLIC functions of the eliot package, in a fresh interpreter (the import-time registry) --------
+def gen_public(rng, tier):
+    out = []
+    for _ in range(8 if tier == "quick" else 80):
+        hist, serial, did, live = [], 0, 0, []
+        nbuf = rng.choice([0, 1, 3, 7])
+        first = True
+        for step in range(rng.randrange(4, 16) + nbuf):
+            r = rng.random()
+            if step < nbuf or r < 0.55:
+                serial += 1
+                hist.append(["log", rng.randrange(10, 15), [[19, {"i": serial}]]])
+            elif r < 0.8 and did < 6:
+                n = rng.choice([2, 3]) if first else rng.choice([1, 1, 2])
+                ds = []
+                for _ in range(n):
+                    ds.append([did, []])
+                    live.append(did)
+                    did += 1
+                hist.append(["add", ds, rng.choice(["single", "many"])])
+                first = False
+            elif r < 0.9 and live:
+                hist.append(["remove", live.pop(rng.randrange(len(live)))])
+            else:
+                hist.append(["globals", [[46, {"i": rng.randrange(3)}]]])
+        if first:
+            hist.append(["add", [[did, []], [did + 1, []]], "many"])
+        out.append({"hist": hist})
+    return out
+
+
+def impl_public(case):
+    import subprocess, sys, tempfile
+    from lib.framework import ROOT
+    d = tempfile.mkdtemp(prefix="pub", dir=os.path.join(ROOT, ".work"))
+    try:
+        p = os.path.join(d, "hist.json")
+        json.dump(case["hist"], open(p, "w"))
+        r = subprocess.run([sys.executable, "-m", "lib.public_child", p], cwd=ROOT, stdout=subprocess.PIPE, stderr=subprocess.PIPE,
+                           universal_newlines=True, timeout=60, env=dict(os.environ))
+        try:
+            return json.loads(r.stdout.strip().splitlines()[-1])
+        except Exception:
+            return {"got": {}, "raised": ["child failed: " + (r.stderr or r.stdout)[-300:]]}
+    finally:
+        import shutil
+        shutil.rmtree(d, ignore_errors=True)
+
+
+def oracle_public(case, obs):
+    if obs["raised"]:
+        return "a public call raised: %s" % obs["raised"][0]
+    hist = case["hist"]
+    first_add = next(i for i, o in enumerate(hist) if o[0] == "add")
+    logs = [(i, o[2][0][1]["i"]) for i, o in enumerate(hist) if o[0] == "log"]
+    reg, rem = {}, {}
+    for i, o in enumerate(hist):
+        if o[0] == "add":
+            for did, _ in o[1]:
+                reg[did] = i
+        elif o[0] == "remove":
+            rem[o[1]] = i
+    for did, j in reg.items():
+        r = rem.get(did, len(hist))
+        want = ([s for i, s in logs if i < j][-CAP:] if j == first_add else []) + [s for i, s in logs if j < i < r]
+        got = obs["got"].get(str(did), [])
+        if got != want:
+            return ("destination %d (registered by call %d%s through the public API) received serials %r, expected %r"
+                    % (did, j, ", the first add" if j == first_add else "", got, want))
+    return None
+
+
+FAMILIES.append(Family("public_api", gen_public, impl_public, None, None, oracle_public,
+                       lambda case, obs: json.dumps(case), shard=2, case_timeout=90))
